@@ -144,9 +144,11 @@ class RemoteDevice(Device):
     def receive(self, msg):
         """
         Process received rx msg/pkt/data.
+        Appends (msg, remote) duple to .rxMsgs deque of the stack with this
+        remote as the source of the msg
         """
         if msg is not None:
-            self.stack.rxMsgs.append(msg)
+            self.stack.rxMsgs.append((msg, self))
 
 
 class SingleRemoteDevice(Device):
